@@ -243,20 +243,21 @@ def values(problem):
 
 
 def flat_snapshot(lens):
-    """props.c01.snapshot as one numeric vector (+ per-entry scale class: 1 for z-like entries)."""
+    """props.c01.snapshot as one numeric vector + a label 'surface.field' per entry."""
     from props.c01 import snapshot
-    vec, isz = [], []
-    for d in snapshot(lens):
+    vec, lab = [], []
+    for k, d in enumerate(snapshot(lens)):
         row = [d['z'], d['x'], d['y'], d['rx'], d['ry'], d['radius'], (0.0 if d['conic'] is None else d['conic']),
                float(d['stop'])] + list(d['n_pre']) + list(d['n_post'])
-        zz = [1] + [0] * (len(row) - 1)
+        names = ['z', 'x', 'y', 'rx', 'ry', 'radius', 'conic', 'stop', 'n_pre0', 'n_pre1', 'n_pre2', 'n_post0', 'n_post1',
+                 'n_post2']
         if d['coeffs'] is not None:
             cc = [float(x) for x in np.ravel(np.asarray(d['coeffs'], dtype=float))]
             row += cc
-            zz += [0] * len(cc)
+            names += [f'c{i}' for i in range(len(cc))]
         vec += row
-        isz += zz
-    return vec, isz
+        lab += [f'{k}.{n}' for n in names]
+    return vec, lab
 
 
 def dependents(c):
@@ -334,7 +335,7 @@ def observe_run(c, fe, opts, nan_at=None, np_seed=0):
     """One optimize() call; everything the end-state clauses need, as plain numbers."""
     lens, problem = c.lens, c.problem
     o = dict(frontend=fe)
-    o['snap_before'], o['snap_isz'] = flat_snapshot(lens)
+    o['snap_before'], o['snap_labels'] = flat_snapshot(lens)
     o['x0'] = values(problem)
     o['m0'] = penal(problem.sum_squared())
     o['m0_oracle'] = penal(merit_oracle(lens, c.ops)[0])
@@ -351,13 +352,13 @@ def observe_run(c, fe, opts, nan_at=None, np_seed=0):
             with monitors.Failpoint(lens.paraxial, 'f2', nan_at, mode='nan') as fp:
                 with logged_fun(log, probe=lambda: fp.fired):
                     res, fun = call_frontend(c, fe, opts)
-            if 'f2' in lens.paraxial.__dict__:
-                del lens.paraxial.__dict__['f2']       # Failpoint leaves the bound method behind; drop it
         else:
             with logged_fun(log):
                 res, fun = call_frontend(c, fe, opts)
     except ValueError as e:
         err = e
+    finally:
+        lens.paraxial.__dict__.pop('f2', None)      # Failpoint leaves the bound method behind as instance attribute
     o['wall'] = time.time() - t0
     o['n_eval'] = len(log)
     o['log_head'] = log[:4]
@@ -374,6 +375,13 @@ def observe_run(c, fe, opts, nan_at=None, np_seed=0):
     o['x'] = [float(t) for t in np.ravel(res.x)]
     o['fun'] = fun
     o['nfev'] = int(getattr(res, 'nfev', -1))
+    o['success'] = bool(getattr(res, 'success', True))
+    xr = np.ravel(np.asarray(res.x, dtype=float))
+    o['returned_point_faulted'] = bool(any(l[2] > 0 and len(l[0]) == len(xr) and np.array_equal(np.asarray(l[0]), xr) for l in log))
+    o['last_eval_faulted'] = bool(log and log[-1][2] > 0)
+    o['returned_fun_is_logged_value'] = bool(any(l[1] == fun for l in log))
+    o['returned_point_evaluated'] = bool(any(len(l[0]) == len(xr) and np.array_equal(np.asarray(l[0]), xr) and l[1] == fun for l in log))
+    o['message'] = str(getattr(res, 'message', ''))[:120]
     o['values_after'] = values(problem)
     o['merit_after'] = penal(problem.sum_squared())
     o['merit_after_oracle'] = penal(merit_oracle(lens, c.ops)[0])
@@ -390,11 +398,11 @@ def _raised_in_scipy(e):
 
 
 def observe_undo(c):
-    """undo(); snapshot after it, and after an explicit Optic.update() on a deep copy (as-built model of the
-    mechanism 'undo re-sets the variables but does not re-apply pickups and solves')."""
-    c.optimizer.undo()
+    """undo(); snapshots immediately before and after it."""
     o = {}
-    o['snap_after'], _ = flat_snapshot(c.lens)
+    o['snap_pre_undo'], _ = flat_snapshot(c.lens)
+    c.optimizer.undo()
+    o['snap_after'], o['snap_labels'] = flat_snapshot(c.lens)
     o['values_after'] = values(c.problem)
     if c.pickup or c.solve:
         twin = copy.deepcopy(c.lens)
@@ -411,6 +419,23 @@ def _clean(o):
     return o
 
 
+def _py(o):
+    """numpy -> plain Python; NaN / Infinity stay floats (json round-trips them)."""
+    if isinstance(o, dict):
+        return {str(k): _py(v) for k, v in o.items()}
+    if isinstance(o, (list, tuple)):
+        return [_py(v) for v in o]
+    if isinstance(o, np.ndarray):
+        return _py(o.tolist())
+    if isinstance(o, (np.floating,)):
+        return float(o)
+    if isinstance(o, (np.integer,)):
+        return int(o)
+    if isinstance(o, (np.bool_,)):
+        return bool(o)
+    return o
+
+
 def main(argv):
     case = json.loads(argv[1])
     out = dict(runs=[])
@@ -420,8 +445,7 @@ def main(argv):
             o = observe_run(c, fe, case.get('opts', {}), np_seed=case.get('np_seed', 0))
             u = observe_undo(c) if 'error' not in o else None
             out['runs'].append(dict(frontend=fe, rep=rep, run=_clean(o), undo=u, dropped=c.dropped, n_ops=len(c.ops)))
-    from .rec import jsonable
-    sys.stdout.write('\nC14JSON:' + json.dumps(jsonable(out)) + '\n')
+    sys.stdout.write('\nC14JSON:' + json.dumps(_py(out)) + '\n')
 
 
 if __name__ == '__main__':
